@@ -69,4 +69,43 @@ inductive LRun (whole : List BLine) : List BLine → Cfg → Out → Cfg → Pro
       when it is reached: the line stands in no block) -/
   | finish {rest c k} : asCode (c.ρ "_e") = some k → LRun whole (.raw "endlocal & exit /B %_e%" :: rest) c (.exit k) c
 
+/-! ### executable side: an interpreter for the line-level semantics
+
+  `lrun` computes what `LRun` relates (`Lemmas/SemBLines.lrun_sound`); the driver runs it on every script of the scalar
+  fragment next to the program-counter machine `runPC`, the tree interpreter and lib/cmdsim.py. -/
+
+def lrun (whole : List BLine) : Nat → List BLine → Cfg → Option (Out × Cfg)
+  | 0, _, _ => none
+  | _ + 1, [], c => some (.normal, c)
+  | f + 1, .clabel _ :: rest, c => lrun whole f rest c
+  | f + 1, .label _ :: rest, c => lrun whole f rest c
+  | f + 1, .close :: rest, c => lrun whole f rest c
+  | f + 1, .cgoto n :: _, c =>
+      match afterLabel n whole with
+      | some tgt => lrun whole f tgt c
+      | none => none
+  | f + 1, .opn t :: rest, c =>
+      match blockTest c.ρ t with
+      | some true => lrun whole f rest c
+      | some false =>
+          match skipBlock 0 rest with
+          | some (.close :: r') => lrun whole f r' c
+          | some (.elseOpen :: r') => lrun whole f r' c
+          | some (.elseIfOpen t' :: r') => lrun whole f (.opn t' :: r') c
+          | _ => none
+      | none => none
+  | f + 1, l :: rest, c =>
+      if l == .raw "endlocal & exit /B %_e%" then (asCode (c.ρ "_e")).map (fun k => (.exit k, c)) else
+      match stepB l c with
+      | some (.normal, c1) => lrun whole f rest c1
+      | some (.exit k, c') => some (.exit k, c')
+      | _ => none
+
+/-- the lines from the first line of the program on (behind the start code and the helper routines), run in the whole script -/
+def runLines (fuel : Nat) (ls : List BLine) : Option (Out × List String) :=
+  let main := programLines ls ++ [.label "end", .raw "endlocal & exit /B %_e%"]
+  match lrun ls fuel main ⟨Store.set (fun _ => "") "_e" "0", []⟩ with
+  | some (o, c) => some (o, c.out)
+  | none => none
+
 end Tsh.SemB
